@@ -19,11 +19,21 @@ fn scale_of(rec: &Value) -> f64 {
 fn quantum(rec: &Value) -> f64 {
     gi_or(rec, "q", 1024) as f64
 }
+// `off`: every centre and point of the record is translated by that lattice vector (constructions far from the origin) and every
+// reported coordinate is translated back before it is quantised; lengths, radii and angles are not affected
+thread_local! { static OFF: std::cell::Cell<[f64; 2]> = std::cell::Cell::new([0.0; 2]); }
+fn set_off(rec: &Value) {
+    let o = match rec.get("off") { Some(_) => { let v = gvi(rec, "off"); [v[0] as f64, v[1] as f64] } None => [0.0; 2] };
+    OFF.with(|c| c.set(o));
+}
+fn off() -> [f64; 2] { OFF.with(|c| c.get()) }
 fn circle(v: &[i64], s: f64) -> Circle2 {
-    Circle2::new(v[0] as f64 * s, v[1] as f64 * s, v[2] as f64 * s)
+    let o = off();
+    Circle2::new((v[0] as f64 + o[0]) * s, (v[1] as f64 + o[1]) * s, v[2] as f64 * s)
 }
 fn pt(v: &[i64], s: f64) -> Point2 {
-    Point2::new(v[0] as f64 * s, v[1] as f64 * s)
+    let o = off();
+    Point2::new((v[0] as f64 + o[0]) * s, (v[1] as f64 + o[1]) * s)
 }
 fn ang16(k: i64) -> f64 {
     k as f64 / N * TAU
@@ -43,7 +53,8 @@ impl P {
         P { q: Q::new(), s: scale_of(rec), k: quantum(rec) }
     }
     fn p(&mut self, p: &Point2) -> Vec<i64> {
-        vec![self.q.q(p.x / self.s, self.k), self.q.q(p.y / self.s, self.k)]
+        let o = off();
+        vec![self.q.q(p.x / self.s - o[0], self.k), self.q.q(p.y / self.s - o[1], self.k)]
     }
     fn ps(&mut self, ps: &[Point2]) -> Vec<Vec<i64>> {
         ps.iter().map(|p| self.p(p)).collect()
@@ -67,7 +78,9 @@ fn guarded<F: FnOnce() -> Value>(f: F) -> Value {
 }
 
 fn bb(pr: &mut P, b: &engeom::geom2::Aabb2) -> Vec<i64> {
-    vec![pr.l(b.mins.x), pr.l(b.mins.y), pr.l(b.maxs.x), pr.l(b.maxs.y)]
+    let lo = pr.p(&b.mins);
+    let hi = pr.p(&b.maxs);
+    vec![lo[0], lo[1], hi[0], hi[1]]
 }
 
 /// projection of an arc: ends, box, length (in 16ths of a turn times the radius unit), samples
@@ -97,6 +110,7 @@ fn arc_out(rec: &Value, arc: &Arc2) -> Value {
 pub fn exec(rec: &Value, _st: &mut State) -> Value {
     let op = gs(rec, "op");
     let s = scale_of(rec);
+    set_off(rec);
     match op {
         // ---- a circle and a segment that starts hundreds of millions of radii... units away (2^27 + 1): the intersection
         //      points themselves are small numbers, only the far end of the segment is large
